@@ -878,3 +878,93 @@ pub fn pairs_obs(out: &str, thorough: bool, seed: u64) {
         writeln!(fo, "{}", l).unwrap();
     }
 }
+
+// ------------------------------------------------------------------------------------------
+// C15 on floating-point edge inputs (off every grid): the postcondition of Crystal!Placements
+// evaluated in floating point with the reference operations
+// ------------------------------------------------------------------------------------------
+pub fn site_edges(out: &str) {
+    use crate::oracle::ref_ops;
+    std::panic::set_hook(Box::new(|_| {}));
+    let ulp_below_half = f64::from_bits(0.5f64.to_bits() - 1);
+    let ulp_above_half = f64::from_bits(0.5f64.to_bits() + 1);
+    let coords = [
+        0.5, -0.5, ulp_below_half, -ulp_below_half, ulp_above_half, -ulp_above_half, 0.0, -0.0, 1e-17, -1e-17,
+        0.25, -0.25, 0.1, 1. / 3., 0.49999, -0.49999, 0.9999999999999999, 1.5, -1.5,
+    ];
+    let angles = [0., 1., 2. * PI, 2. * PI - 1e-16, PI, 0.5 * PI];
+    let mut checked = 0usize;
+    let mut failures: Vec<Value> = vec![];
+    for g in GROUPS.iter() {
+        let wg = group(g);
+        let ops = ref_ops(g);
+        let base = match PackedState::from_group(LineShape::polygon(4).unwrap(), &wg) {
+            Ok(s) => serde_json::to_value(&s).unwrap(),
+            Err(_) => continue,
+        };
+        for x in coords.iter() {
+            for y in coords.iter() {
+                for phi in angles.iter() {
+                    let mut j = base.clone();
+                    j["occupied_sites"][0]["x"] = json!(x);
+                    j["occupied_sites"][0]["y"] = json!(y);
+                    j["occupied_sites"][0]["angle"] = json!(phi);
+                    let st: PackedState<LineShape> = match serde_json::from_value(j) {
+                        Ok(s) => s,
+                        Err(_) => continue,
+                    };
+                    let rel: Vec<Matrix3<f64>> = match catch_unwind(AssertUnwindSafe(|| st.relative_positions().map(|t| mat(&t)).collect())) {
+                        Ok(r) => r,
+                        Err(_) => {
+                            failures.push(json!({"what": "panic", "state": {"g": g, "x": x, "y": y, "phi": phi}}));
+                            continue;
+                        }
+                    };
+                    checked += 1;
+                    let mut bad: Option<String> = None;
+                    if rel.len() != ops.len() {
+                        bad = Some(format!("{} placements, the group has order {}", rel.len(), ops.len()));
+                    }
+                    let (c, s) = (phi.cos(), phi.sin());
+                    let mut used = vec![false; rel.len()];
+                    for op in ops.iter() {
+                        let ex = op[0] * x + op[1] * y + op[4];
+                        let ey = op[2] * x + op[3] * y + op[5];
+                        let lin = [op[0] * c + op[1] * s, -op[0] * s + op[1] * c, op[2] * c + op[3] * s, -op[2] * s + op[3] * c];
+                        let mut found = false;
+                        for (i, m) in rel.iter().enumerate() {
+                            if used[i] {
+                                continue;
+                            }
+                            let (dx, dy) = (m[(0, 2)] - ex, m[(1, 2)] - ey);
+                            let cong = (dx - dx.round()).abs() <= 1e-15 * (1. + ex.abs()) && (dy - dy.round()).abs() <= 1e-15 * (1. + ey.abs());
+                            let lin_ok = (m[(0, 0)] - lin[0]).abs() <= 1e-15
+                                && (m[(0, 1)] - lin[1]).abs() <= 1e-15
+                                && (m[(1, 0)] - lin[2]).abs() <= 1e-15
+                                && (m[(1, 1)] - lin[3]).abs() <= 1e-15;
+                            if cong && lin_ok {
+                                used[i] = true;
+                                found = true;
+                                break;
+                            }
+                        }
+                        if !found && bad.is_none() {
+                            bad = Some("a placement is not congruent to its operation applied to the site".into());
+                        }
+                    }
+                    for m in rel.iter() {
+                        if !(m[(0, 2)] >= -0.5 && m[(0, 2)] < 0.5 && m[(1, 2)] >= -0.5 && m[(1, 2)] < 0.5) && bad.is_none() {
+                            bad = Some(format!("placement ({}, {}) outside the half-open cell", m[(0, 2)], m[(1, 2)]));
+                        }
+                    }
+                    if let Some(w) = bad {
+                        failures.push(json!({"what": w, "state": {"g": g, "x": format!("{:e}", x), "y": format!("{:e}", y), "phi": phi}}));
+                    }
+                }
+            }
+        }
+    }
+    let res = json!({"checked": checked, "failures": failures.len(), "first_failures": failures.iter().take(10).collect::<Vec<_>>()});
+    let mut fo = fs::File::create(out).expect("out");
+    writeln!(fo, "{}", res).unwrap();
+}
